@@ -325,11 +325,20 @@ structure EvalOut (α : Type) where
   energy : α            -- `getEnergy()` of the decoded spline (whether or not it is weighted in)
   spline : SplineND α
 
-/-- `evaluate` -/
-def evaluate [NumOrd α] (c : Config α) (x : List α) (costs : Costs α) : EvalOut α :=
-  let L := c.layout
+/-- what `evaluate` computes from the decoded problem (everything except decoding and gradient assembly) -/
+structure CoreOut (α : Type) where
+  cost : α
+  g : GradsND α            -- gradient w.r.t. durations, waypoints and boundary states
+  samples : List (Sample α)
+  segCosts : List α
+  timeCost : α
+  wpCost : α
+  energy : α
+  spline : SplineND α
+
+/-- the middle of `evaluate`: spline construction, the cost terms and their gradients w.r.t. the decoded quantities -/
+def evalCore [NumOrd α] (c : Config α) (dc : Decoded α) (costs : Costs α) : CoreOut α :=
   let n := c.n
-  let dc := decode c x
   let sp := buildND c.order c.dim dc.times dc.waypoints c.startTime dc.bc
   -- time cost
   let (tc, userGdT) := costs.time dc.times
@@ -372,10 +381,16 @@ def evaluate [NumOrd α] (c : Config α) (x : List α) (costs : Costs α) : Eval
                  if c.order.degree ≥ 5 then ad g1.fin.a eg.fin.a else g1.fin.a,
                  if c.order.degree ≥ 7 then ad g1.fin.j eg.fin.j else g1.fin.j⟩ })
     else (cost2, g1)
-  -- assemble
+  { cost := cost3, g := g2, samples := segs.flatMap (·.2), segCosts := segCosts, timeCost := tc, wpCost := wc,
+    energy := sp.energy, spline := sp }
+
+/-- the end of `evaluate`: pull the gradient back through the maps and scatter it into the decision-vector layout -/
+def assemble [Num α] (c : Config α) (x : List α) (times : List α) (g2 : GradsND α) : List α :=
+  let L := c.layout
+  let n := c.n
   let gx0 : List α := List.replicate x.length (lit 0)
   let gx1 := writeAt gx0 0 ((List.range n).map (fun i =>
-      c.tm.backward (x.getD i (lit 0)) (dc.times.getD i (lit 0)) (g2.times.getD i (lit 0))))
+      c.tm.backward (x.getD i (lit 0)) (times.getD i (lit 0)) (g2.times.getD i (lit 0))))
   let gx2 := L.vars.foldl (fun gx v =>
       let xi := segment x v.offset v.dof
       let gp := if v.point = 0 then g2.start.p else if v.point = n then g2.fin.p
@@ -387,8 +402,15 @@ def evaluate [NumOrd α] (c : Config α) (x : List α) (costs : Costs α) : Eval
   let (gx3, _) := (derivBlocks c.order c.flags).foldl
       (fun (acc : List α × Nat) b => (writeAt acc.1 acc.2 (blockGrad b), acc.2 + c.dim))
       (gx2, L.derivOffset)
-  { cost := cost3, grad := gx3, decoded := dc, samples := segs.flatMap (·.2), segCosts := segCosts,
-    timeCost := tc, wpCost := wc, energy := sp.energy, spline := sp }
+  gx3
+
+/-- `evaluate` -/
+def evaluate [NumOrd α] (c : Config α) (x : List α) (costs : Costs α) : EvalOut α :=
+  let dc := decode c x
+  let core := evalCore c dc costs
+  { cost := core.cost, grad := assemble c x dc.times core.g, decoded := dc, samples := core.samples,
+    segCosts := core.segCosts, timeCost := core.timeCost, wpCost := core.wpCost, energy := core.energy,
+    spline := core.spline }
 
 /-! ### `checkGradients` -/
 structure GradCheck (α : Type) where
